@@ -16,9 +16,17 @@ def handle (args : List Sexp) : Sexp :=
             | some e, some tgt =>
                 match Convert.convert ctx.reg ctx.Γ e tgt with
                 | .ok r =>
-                    let strict := match Infer.traverse ctx.reg ctx.Γ r.e with
+                    let strictOf (x : E) : Sexp := match Infer.traverse ctx.reg ctx.Γ x with
                       | .ok (_, u) => .list (.atom "ok" :: unitReply ctx.reg u)
                       | .error err => errReply err
+                    -- an assignment equation is judged side by side (the harness does the same)
+                    let strict := match e, r.e with
+                      | .rel .eq _ _, .rel .eq l rr =>
+                          (match Infer.traverse ctx.reg ctx.Γ l, Infer.traverse ctx.reg ctx.Γ rr with
+                           | .ok (_, ul), .ok _ => .list (.atom "ok" :: unitReply ctx.reg ul)
+                           | .error err, _ => errReply err
+                           | _, .error err => errReply err)
+                      | _, x => strictOf x
                     .list [.atom "ok", .list [.atom "expr", r.e.toSexp], .list [.atom "wc", ofBool r.wc],
                            .list [.atom "same", ofBool r.same], .list (.atom "unit" :: unitReply ctx.reg r.u),
                            .list [.atom "strict", strict]]
